@@ -31,6 +31,7 @@ RULE = (
 )
 RULE += '; an instance is compared both ways with its counterpart in every other specialisation of its generic class'
 RULE += '; many other specialisations of the generic class may come and go before the same specialisation is asked for again'
+RULE += '; an instance with a MISSING attribute is compared with one that has a value there'
 LEVEL_TEXT = (
     "Invariant checking over generated histories: a deep-frozen snapshot of the instance must be unchanged after every "
     "attempt; updated() is compared attribute-by-attribute with the conformance oracle's stored form; equality is "
@@ -154,7 +155,7 @@ def _mutate(obj, how) -> bool:
 def run_case(case) -> Outcome:
     out = Outcome()
     cls = case["cls"]
-    src = TT.class_source(cls)
+    src = TT.class_source({**cls, "derived": False})  # (the derived-class variants belong to C05)
     if cls.get("fresh"):
         # a brand-new class per execution: anything the library remembers per class (validators, caches) starts from
         # scratch, so a history-dependent result is reproducible from the case alone
@@ -678,6 +679,12 @@ def strategy(tier):
                   # naming an attribute with MISSING: stored as MISSING (no class default) - or rejected by a type that does not admit it
                   {"o": "updated", "repl": {str(which): V_("missing")}, "unknown": False},
                   {"o": "inplace", "target": draw(st.sampled_from(["copy", "deepcopy", "updated"]))}]  # fmt: skip
+        # an instance whose attribute is MISSING and one that has a value there differ in that attribute: unequal, both ways
+        for i, t in enumerate(picks):
+            alt = next((x for x in t.get("alts", []) if x["t"] != "missing"), None)
+            if args.get(f"a{i}") is None and alt is not None:
+                val = {"int": V_("int", x=3), "str": V_("str", x="s"), "seq": V_("list", items=ints(1, 2))}[alt["t"]]
+                script.append({"o": "eq", "other": "diff1", "attr": i, "val": val})
         return {"cls": {"generic": False, "targ": None, "attrs": attrs}, "args": args, "script": script}
 
     return st.one_of(cases(), cases(), cases(), nested_cases(), twin_cases(), history_cases(), missing_cases())
